@@ -38,7 +38,7 @@ pub fn semilegal_validator_exact<S: Src, const SIDE: u8, const KG: u8>(s: &mut S
     vnote!("fen={} move={:?} got={} want={}", b.as_fen(), mv, got, want);
     vassert!("is_semilegal = pseudo-legal by the rules", got == want);
     vassert!("semi_validate agrees with is_semilegal", mv.semi_validate(&b).is_ok() == got);
-    vcover!("a semilegal move", want);
+    vcover!("a semilegal move (own men)", KG == KG_FOREIGN || want);
     vcover!("a well-formed move that is not semilegal", !want);
 }
 
